@@ -738,3 +738,57 @@ func (t *Term) String() string {
 	}
 	return s
 }
+
+// Subst rebuilds t in ctx c with every variable replaced by f(var) (f may
+// return nil to keep the variable). memo must be shared across calls that use
+// the same f.
+func (c *Ctx) Subst(t *Term, f func(v *Term) *Term, memo map[*Term]*Term) *Term {
+	if r, ok := memo[t]; ok {
+		return r
+	}
+	var r *Term
+	switch t.Op {
+	case OpConst:
+		r = t
+	case OpVar:
+		r = f(t)
+		if r == nil {
+			r = t
+		}
+	default:
+		args := make([]*Term, len(t.Args))
+		for i, a := range t.Args {
+			args[i] = c.Subst(a, f, memo)
+		}
+		switch t.Op {
+		case OpNot:
+			r = c.Not(args[0])
+		case OpAnd:
+			r = c.And(args...)
+		case OpOr:
+			r = c.Or(args...)
+		case OpIte:
+			r = c.Ite(args[0], args[1], args[2])
+		case OpEq:
+			r = c.Eq(args[0], args[1])
+		case OpBvNot:
+			r = c.BvNot(args[0])
+		case OpNeg:
+			r = c.Neg(args[0])
+		case OpExtract:
+			r = c.Extract(args[0], t.Hi, t.Lo)
+		case OpConcat:
+			r = c.Concat(args[0], args[1])
+		case OpZExt:
+			r = c.ZExt(args[0], t.W)
+		case OpSExt:
+			r = c.SExt(args[0], t.W)
+		case OpUlt, OpUle, OpSlt, OpSle:
+			r = c.Cmp(t.Op, args[0], args[1])
+		default:
+			r = c.Bin(t.Op, args[0], args[1])
+		}
+	}
+	memo[t] = r
+	return r
+}
